@@ -54,6 +54,27 @@ type Runtime struct {
 	ReturnRunning []string // keys of commands still in flight when Run returned
 	WF            *sp.Workflow
 	PreRound      []*simrt.Inode // snapshot right before each further in-process round
+	api           int            // tape-chosen variant of equivalent API calls (see Build)
+	nconn         int
+}
+
+// connect / connectP: a connection made from the receiving or from the sending
+// side, as the api variant of this build says.
+func (rt *Runtime) connect(in *sp.InPort, up *sp.OutPort) {
+	rt.nconn++
+	if rt.api == 1 || (rt.api == 2 && rt.nconn%2 == 0) {
+		up.To(in)
+	} else {
+		in.From(up)
+	}
+}
+
+func (rt *Runtime) connectP(in *sp.InParamPort, up *sp.OutParamPort) {
+	if rt.api == 1 || rt.api == 3 {
+		up.To(in)
+	} else {
+		in.From(up)
+	}
 }
 
 func commandPattern(n *Node) string {
@@ -247,22 +268,8 @@ func Build(w *WF, rt *Runtime) *sp.Workflow {
 	} else {
 		wf = sp.NewWorkflow(w.Name, w.MaxTasks)
 	}
-	nconn := 0
-	connect := func(in *sp.InPort, up *sp.OutPort) {
-		nconn++
-		if api == 1 || (api == 2 && nconn%2 == 0) {
-			up.To(in)
-		} else {
-			in.From(up)
-		}
-	}
-	connectP := func(in *sp.InParamPort, up *sp.OutParamPort) {
-		if api == 1 || api == 3 {
-			up.To(in)
-		} else {
-			in.From(up)
-		}
-	}
+	rt.api, rt.nconn = api, 0
+	connect, connectP := rt.connect, rt.connectP
 	rt.WF = wf
 	procs := make([]outPorter, len(w.Nodes))
 	plain := make([]*sp.Process, len(w.Nodes))
